@@ -32,14 +32,14 @@ func (e *Engine) funcValue(fn *ssa.Function, bindings []Value) Value {
 	var id uint64
 	if len(bindings) == 0 {
 		// stable id per function
+		e.W.mu.Lock()
 		if x, ok := e.W.fnIDs[fn]; ok {
 			id = x
 		} else {
-			e.W.mu.Lock()
 			id = uint64(len(e.W.fnIDs) + 1)
 			e.W.fnIDs[fn] = id
-			e.W.mu.Unlock()
 		}
+		e.W.mu.Unlock()
 		if _, ok := e.closures[id]; !ok {
 			e.closures[id] = &closure{fn: fn}
 		}
